@@ -265,6 +265,41 @@ def hyp_explore(part, known, strategy, case_fn, n, seed, max_roots=MAX_ROOTS, sh
     return part
 
 
+def hyp_collect(part, known, strategy, case_fn, n, seed, label=""):
+    """Like hyp_explore but never stops: every generated case is evaluated and *all* its verdicts are
+    classified (first example per key kept).  For catalogue-style checks where one generated data set
+    is judged against hundreds of templates and several root causes are expected at once."""
+    import hypothesis
+    from hypothesis import HealthCheck, Phase, given, settings
+
+    def body(case):
+        probe = Part()
+        try:
+            outs = list(case_fn(case, probe) or [])
+        except HarnessError:
+            raise
+        except Exception as e:
+            esc = escaped_from_library(e)
+            if esc is None:
+                raise
+            outs = [(f"{label or 'case'}:exception-escaped:{esc}", {"error": f"{type(e).__name__}: {e}"[:300]})]
+        part.merge(probe)
+        for key, detail in outs:
+            e = known.match(key)
+            if e is not None:
+                part.known_hits[e["id"]] += 1
+            elif key not in part.violations:
+                part.violations[key] = jsonable({"detail": detail, "case": case, "gen": label})
+
+    test = hypothesis.seed(seed)(
+        settings(max_examples=n, database=None, deadline=None, report_multiple_bugs=False,
+                 suppress_health_check=list(HealthCheck), phases=[Phase.generate], print_blob=False,
+                 verbosity=hypothesis.Verbosity.quiet)(given(strategy)(body))
+    )
+    test()
+    return part
+
+
 # ---------------------------------------------------------------------------
 # Worker pool
 
